@@ -5,7 +5,8 @@ open Scenic.RegionSampling
 /-- shapes of the generic samplers in src/scenic/core/regions.py -/
 def samplerCfg : SamplerCfg :=
   { interDimOp := .le, interChecksAll := true, unionDimOp := .eq, unionWeight := .size,
-    unionCount := .allRegs, unionAccept := .invCount, unionSelf := .byConstruction, diffRejectsInB := true }
+    unionCount := .allRegs, unionAccept := .invCount, unionSelf := .byConstruction, diffRejectsInB := true,
+    interTrue := .structural, unionTrue := .structural, diffTrue := .structural }
 /-- the membership test of the sampler installed by PointSetRegion.intersect -/
 def ballFilter : BallFilter := .trueContainsPoint
 /-- what that sampler does when the other region has no `circumcircle` -/
